@@ -191,7 +191,21 @@ func runC20List(c *rt.C) {
 				item = model[r.Intn(len(model))].item // duplicate bytes, different node
 			} else {
 				nextKey++
-				item = []byte(fmt.Sprintf("n%04d", nextKey))
+				// keys of mixed lengths, some a prefix of others: Remove must compare whole keys and keep its
+				// predecessor pointer whatever it rejects on the way
+				switch nextKey % 4 {
+				case 0:
+					item = []byte(fmt.Sprintf("n%04d", nextKey))
+				case 1:
+					item = []byte(fmt.Sprintf("n%d", nextKey))
+				case 2:
+					item = []byte(fmt.Sprintf("n%04d", nextKey-2) + "/longer-key")
+				default:
+					item = []byte(fmt.Sprintf("%c", 'a'+nextKey%26))
+					if used[string(item)] > 0 {
+						item = []byte(fmt.Sprintf("%c%d", 'a'+nextKey%26, nextKey))
+					}
+				}
 			}
 			if used[string(item)] >= nDB {
 				break
@@ -288,7 +302,7 @@ func init() {
 	rt.Register(&rt.Prop{
 		ID: "C20", Level: "exploration",
 		Technique: "reference-model monitor (map / list) over seeded random operation sequences",
-		Rule: "each case = one seeded random program of Update/Remove/Get over 1-64 keys against a Go map, hash function rotating over {constant, crc32 mod 2, mod 7, crc32, 2-bit}; every 4th case drives NodeList Add/Remove/Keys/Head against a slice. " +
+		Rule: "each case = one seeded random program of Update/Remove/Get over 1-64 keys against a Go map, hash function rotating over {constant, crc32 mod 2, mod 7, crc32, 2-bit}; every 4th case drives NodeList Add/Remove/Keys/Head against a slice (keys of 1-16 bytes, some a prefix of others, duplicates on different nodes). " +
 			"evaluations = calls checked; distinct = (operation, hash, key present?, bucket-occupancy histogram before the call) tuples, i.e. distinct fast/slow table shapes operated on",
 		Assumptions: []string{"single goroutine (the table is documented as not thread-safe)"},
 		Cases: func(t string) int {
